@@ -28,9 +28,9 @@ Done == phase = "done"
 REq(a, b)  == a[1] * b[2] = b[1] * a[2]
 RSub(a, b) == <<a[1] * b[2] - b[1] * a[2], a[2] * b[2]>>
 Positive   == Done => \A i \in 1 .. n : dist[i][1] > 0 /\ dist[i][2] > 0
-SumsToOne  == Done => LET RECURSIVE S(_)
-                          S(i) == IF i = 0 THEN 0 ELSE dist[i][1] + S(i - 1)
-                      IN  S(n) = dist[1][2]          \* common denominator
+RECURSIVE NumSum(_, _)
+NumSum(d, i) == IF i = 0 THEN 0 ELSE d[i][1] + NumSum(d, i - 1)
+SumsToOne  == Done => NumSum(dist, n) = dist[1][2]          \* common denominator
 (* all weights share one denominator, so the progression can be stated on  *)
 (* the numerators (TLC integers are 32 bit: no cross products of products) *)
 CommonDen  == Done => \A i \in 1 .. n : dist[i][2] = dist[1][2]
